@@ -198,3 +198,12 @@ Proof.
     rewrite E. repeat constructor; cbn; intros H; repeat destruct H as [H|H]; try discriminate; exact H.
   - eexists. vm_compute. reflexivity.
 Qed.
+
+(* ---- C08: the order in which top-level variants were added is not content *)
+Theorem ser_variants_perm vs vs' : Permutation.Permutation vs vs' -> NoDup (map fst vs) -> ser_variants vs = ser_variants vs'.
+Proof. intros Hp Hn. unfold ser_variants, validate_container. rewrite (sort_keys_perm vs vs' Hp Hn). reflexivity. Qed.
+
+Theorem dump_ci_perm x vs' :
+  Permutation.Permutation (ci_variants x) vs' -> NoDup (map fst (ci_variants x)) ->
+  dump_ci x = dump_ci {| ci_compose := ci_compose x; ci_release := ci_release x; ci_base_product := ci_base_product x; ci_variants := vs' |}.
+Proof. intros Hp Hn. unfold dump_ci, ser_ci. cbn [ci_compose ci_release ci_base_product ci_variants]. rewrite (ser_variants_perm _ _ Hp Hn). reflexivity. Qed.
